@@ -81,6 +81,7 @@ def run(ctx):
     R.r_fixed(ctx, cm, None, None, 'C02.D2')
     R.r_padfn(ctx, cm, 'C02.D3')
     R.r_stringlike(ctx, cm, None, 'C02.D4')
+    R.signature_length_limit(ctx, cm, 'C02.D4')
     for le, _ in R.ORDERS:
         tag = 'LE' if le else 'BE'
         c01.array_encoder(ctx, cm, 'C02.D4', le, spec_rule='C02.D4')
